@@ -11,8 +11,8 @@ package vsched
 //	{ c0 := vsched.RecvCase(a); c1 := vsched.SendCase(b, x)
 //	  switch vsched.Select(true, c0, c1) { case 0: v, ok := c0.Val, c0.Ok; A; case 1: B; default: D } }
 //
-// Among several ready cases the first in source order is taken (Go chooses at
-// random; this one source of nondeterminism is not enumerated).
+// Among several ready cases Go chooses at random; the choice is a recorded decision
+// (vsched.Choose), so the explorer enumerates every alternative.
 type SelCase interface {
 	ready() bool
 	fire(t *Thread)
@@ -126,11 +126,17 @@ func Select(hasDefault bool, cases ...SelCase) int {
 	}
 	Sync("select")
 	for {
+		var ready []int
 		for i, c := range cases {
 			if c.ready() {
-				c.fire(t)
-				return i
+				ready = append(ready, i)
 			}
+		}
+		if len(ready) > 0 {
+			// Go picks one of the ready cases at random: every alternative is explored
+			i := ready[Choose(len(ready), "select")]
+			cases[i].fire(t)
+			return i
 		}
 		if hasDefault {
 			t.Note("select:default")
